@@ -17,7 +17,7 @@ import z3
 from engine.common.core import Obligation, Cover, mval
 from engine.pyvc.values import *
 from engine.pyvc import models
-from engine.pyvc.harness import toolkit, raw, where, new_engine, run_paths, path_obligations, register_fn, note_engine, qualname, par_cases
+from engine.pyvc.harness import toolkit, raw, where, new_engine, run_paths, path_obligations, register_fn, note_engine, qualname, par_cases, exc_note, sect
 from contracts.py import msgs
 from spec import trxd_pdu as P
 from spec import trxd_layout as L
@@ -93,10 +93,10 @@ def build(run, prop=ID):
                      (cd.Spare, ("_to_bytes", "_from_bytes")), (tp.MTS, ("get_burst_len",))):
         for nm in names:
             register_fn(run, raw(c, nm), "executed on the live PDU objects")
-    build_burst_len(run, prop, E, tp)
-    build_encode_roundtrip(run, prop, E, cd)
-    build_decode_any(run, prop, E, cd)
-    build_cross(run, prop, E, cd)
+    sect(run, build_burst_len, run, prop, E, tp)
+    sect(run, build_encode_roundtrip, run, prop, E, cd)
+    sect(run, build_decode_any, run, prop, E, cd)
+    sect(run, build_cross, run, prop, E, cd)
     note_engine(run, E)
     run.assume("PDU structure (STRUCT tuples, bit offsets/masks, lambdas) is taken from the live objects built by the real constructors; "
                "the constructors themselves (BitFieldSet.__init__ layout arithmetic) are C16's obligations")
@@ -286,7 +286,7 @@ def build_decode_any(run, prop, E, cd):
             tag = {"what": "decode", "name": name}
             cs = name
             if out[0] == "raise":
-                obls.append(Obligation(prop, "trxd_proto." + name, "rejects_only_with_DecodeError", p.pc, z3.BoolVal(issubclass(out[1].cls, cd.DecodeError)), kind="noexc",
+                obls.append(Obligation(prop, "trxd_proto." + name, "rejects_only_with_DecodeError", p.pc, z3.BoolVal(issubclass(out[1].cls, cd.DecodeError)), kind="noexc", note=exc_note(out[1]),
                                        case=cs + "," + out[1].cls.__name__, where="src/target/trx_toolkit/trxd_proto.py", tag=tag))
                 a = getattr(out[1], "args", ()) or ()
                 from_seq = len(a) >= 2 and isinstance(obj.STRUCT[-1], cd.Sequence.F) and a[1] is obj.STRUCT[-1]
